@@ -30,6 +30,7 @@ import (
 	"encoding/json"
 	"fmt"
 	"os"
+	"regexp"
 	"runtime"
 	"sort"
 	"strings"
@@ -344,6 +345,11 @@ func (s *c07Shrinker) still(prog string, input any) bool {
 	}
 	s.budget--
 	if _, err := gojq.Parse(prog); err != nil {
+		return false
+	}
+	// a shrink step that drops a local `def env: ...;` turns a call of it into the environment-dependent built-in
+	// of the same name, which is outside the domain (harness flaw found by the thorough tier: reported `(env)`)
+	if c07UsesExcludedBuiltin(prog) {
 		return false
 	}
 	o := s.w.check(prog, input, s.cli)
@@ -825,4 +831,27 @@ func c07One(run *ev.Run, tbl []c07Builtin, args []string) {
 		fmt.Println("cli raw:  ", o.fq.cliRaw)
 	}
 	os.Exit(0)
+}
+
+var c07ExcludedNames = []string{"env", "halt", "halt_error", "input", "inputs", "now", "localtime", "strflocaltime", "mktime", "input_line_number", "builtins", "get_search_list", "scope", "scopedump", "modulemeta", "input_filename"}
+
+var c07ExcludedRes = func() map[string][2]*regexp.Regexp {
+	m := map[string][2]*regexp.Regexp{}
+	for _, n := range c07ExcludedNames {
+		m[n] = [2]*regexp.Regexp{regexp.MustCompile(`(^|[^A-Za-z0-9_$.:"])` + n + `($|[^A-Za-z0-9_"])`), regexp.MustCompile(`def\s+` + n + `\s*[:(]`)}
+	}
+	return m
+}()
+
+// c07UsesExcludedBuiltin: the program text calls one of the excluded built-ins without defining a function of that name
+func c07UsesExcludedBuiltin(prog string) bool {
+	if strings.Contains(prog, "$ENV") || strings.Contains(prog, "$__loc__") {
+		return true
+	}
+	for _, res := range c07ExcludedRes {
+		if res[0].MatchString(prog) && !res[1].MatchString(prog) {
+			return true
+		}
+	}
+	return false
 }
